@@ -759,3 +759,39 @@ Proof.
     + intros [H1 H2]. now constructor.
     + intros H. inversion H; subst. now split.
 Qed.
+
+(** *** the three cones are nested: comb within init within full *)
+Lemma succs_mono v v' sy e c :
+  (follow_init v = true -> follow_init v' = true) ->
+  (follow_next v = true -> follow_next v' = true) ->
+  In c (succs v sy e) -> In c (succs v' sy e).
+Proof.
+  intros Hi Hn. unfold succs. rewrite !in_app_iff, !in_state_links.
+  intros [H | (st & Hf & [[Hv Hx]|[Hv Hx]])]; [now left | right; exists st ..].
+  - split; [exact Hf | left; split; [now apply Hi | exact Hx]].
+  - split; [exact Hf | right; split; [now apply Hn | exact Hx]].
+Qed.
+
+Lemma mreach_mono v v' sy root e :
+  (follow_init v = true -> follow_init v' = true) ->
+  (follow_next v = true -> follow_next v' = true) ->
+  mreach v sy root e -> mreach v' sy root e.
+Proof.
+  intros Hi Hn. induction 1 as [|x c _ IH Hc]; [apply mreach_root|].
+  apply (mreach_step v' sy root x c IH). now apply (succs_mono v v').
+Qed.
+
+Lemma coi_nested_lemma sy root Cc Ci Cf :
+  coi_opt VComb sy root = Some Cc -> coi_opt VInit sy root = Some Ci -> coi_opt VFull sy root = Some Cf ->
+  (forall s, In s Cc -> In s Ci) /\ (forall s, In s Ci -> In s Cf).
+Proof.
+  intros Hc Hi Hf.
+  destruct (coi_opt_spec VComb sy root Cc Hc) as [Sc _].
+  destruct (coi_opt_spec VInit sy root Ci Hi) as [Si _].
+  destruct (coi_opt_spec VFull sy root Cf Hf) as [Sf _].
+  split; intros s Hs.
+  - apply Si. apply Sc in Hs. destruct Hs as [Hm Hr]. split; [|exact Hr].
+    apply (mreach_mono VComb VInit); [reflexivity | discriminate | exact Hm].
+  - apply Sf. apply Si in Hs. destruct Hs as [Hm Hr]. split; [|exact Hr].
+    apply (mreach_mono VInit VFull); [reflexivity | reflexivity | exact Hm].
+Qed.
